@@ -165,6 +165,9 @@ func abstract(s string) string {
 	s = core1(s)
 	s = numRe.ReplaceAllString(s, "mN")
 	s = regexp.MustCompile(`d\d{4}`).ReplaceAllString(s, "dN")
+	// file positions: drop the work directory (its name carries a source digest) and line:column
+	s = regexp.MustCompile(`\S*/dN/`).ReplaceAllString(s, "dN/")
+	s = regexp.MustCompile(`\.go:\d+:\d+`).ReplaceAllString(s, ".go:L:C")
 	if i := strings.IndexByte(s, '\n'); i >= 0 {
 		s = s[:i]
 	}
